@@ -310,7 +310,11 @@ def run_sched_task(task, acc):
                 acc.count('schedules_not_reproducible')
         return
     n = 0
-    for schd, obs, pts in sched.explore_slice(mk, roots, task['bound'], observe, task['first'], task['indexes']):
+    skip1 = task.get('skip1')
+    for schd, obs, pts in sched.explore_slice(mk, roots, task['bound'], observe, task['first'], task['indexes'],
+                                              second_stride=task.get('stride2', 1)):
+        if skip1 and len(schd['preempt']) == 1:
+            continue          # the one-preemption schedules are covered by the bound-1 tasks
         judge_schedule(pair, schd, obs, acc, pts)
         if n == 0:
             acc.sample({'pair': pair, 'schedule': schd, 'scheduling_points': pts})
@@ -376,10 +380,16 @@ def tasks(tier, seed):
         for first in (0, 1):
             n_first, total = sched.count_points(lambda: pair_bodies(pair), roots, first)
             idx = list(range(n_first))
-            if tier == 'thorough' and pair != 'dumps_loads':
-                idx = idx[::3]      # 2-preemption runs are quadratic; every third first-preemption point
-            for ch in core.spread(idx, 24 if tier == 'quick' else 64):
-                ts.append({'t': 'sched', 'pair': pair, 'first': first, 'indexes': ch, 'bound': bound})
+            for ch in core.spread(idx, 24 if tier == 'quick' else 32):
+                ts.append({'t': 'sched', 'pair': pair, 'first': first, 'indexes': ch, 'bound': 1})
+            if tier == 'thorough':
+                # two preemptions are quadratic in the number of points: every placement for the small pair,
+                # a regular 7 x 5 grid of (first, second) points for the file pairs
+                full = pair == 'dumps_loads'
+                idx2 = idx if full else idx[::7]
+                for ch in core.spread(idx2, 64):
+                    ts.append({'t': 'sched', 'pair': pair, 'first': first, 'indexes': ch, 'bound': 2,
+                               'stride2': 1 if full else 5, 'skip1': True})
     return ts
 
 
@@ -400,7 +410,7 @@ def run(tier, seed):
     desc = describe(tier, seed)
     ts = tasks(tier, seed)
     acc = core.Acc()
-    for r in core.pmap(run_task, ts):
+    for r in core.pmap(core.safe_task(run_task, PROPERTY, tier, seed), list(enumerate(ts))):
         acc.merge(r)
     merges_n = sum(v for k, v in acc.outcomes.items() if k == 'merge')
     scheds_n = sum(v for k, v in acc.outcomes.items() if str(k).startswith('sched'))
@@ -420,17 +430,22 @@ def describe(tier, seed):
                 '+ 2 readers (one reader meets a bad record), all merges with <= %d switches of 3 operations each, for '
                 'two instance sets plus same-kind sets; (b) real threads under a baton scheduler, scheduling points = '
                 'line events in cardutil/*.py: pairs next||next, write||write, write||next, dumps||loads, every '
-                'placement of <= %d preemption(s)%s; each schedule runs to completion; a schedule is replayed twice '
+                'placement of 1 preemption%s; each schedule runs to completion; a schedule is replayed twice '
                 'to prove determinism. Oracle: each instance\'s trace (returned records, exceptions with record '
                 'number and context, record_number / last_record after each step, final file bytes) equals its solo '
                 'run.' % (' (quick: a quarter of the length-3 sequences per codec/format)' if tier == 'quick' else '',
-                          2 if tier == 'quick' else 3, 1 if tier == 'quick' else 2,
-                          '' if tier == 'quick' else ' (second preemption anywhere in the other thread\'s run; first '
-                          'preemption at every third point for the file pairs)'),
+                          2 if tier == 'quick' else 3,
+                          '' if tier == 'quick' else ' and of 2 preemptions (every placement for dumps||loads; for the '
+                          'file pairs a regular grid: every 7th point for the first, every 5th point of the other '
+                          'thread\'s following run for the second)'),
         'assumptions': ['thread switches are explored at line granularity inside cardutil (not per bytecode)',
                         'the library holds no locks; logging is disabled so its handler locks are never contended'],
         'bounds': {'preemptions': 1 if tier == 'quick' else 2, 'ops_per_instance': 3, 'instances': 4},
-        'exhaustive': True,
+        'exhaustive': tier == 'quick',
+        'caps_hit': [] if tier == 'quick' else ['2-preemption schedules of the three file pairs are explored on a '
+                                                'regular 7 x 5 grid of scheduling points, not at every placement '
+                                                '(1-preemption schedules and all 2-preemption schedules of '
+                                                'dumps||loads are complete)'],
     }
 
 
